@@ -31,7 +31,7 @@ EV_OWNER = {"add": "C03", "c.match": "C03",
             "c.answer": "C02", "c.resp": "C02", "a.lookup": "C02",
             "w.timeout": "C04", "w.locked": "C04", "w.claimed": "C04", "c.timeout": "C04", "c.precleanup": "C04",
             "c.cleanup": "C04", "a.send": "C04", "a.sent": "C04", "a.dropped": "C04", "a.resp": "C04", "tick": "C04",
-            "end": "C04", "reset": "C04", "metrics": "C19"}
+            "end": "C04", "reset": "C04", "metrics": "C19", "m.locked": "C20"}
 
 
 def q(xs):
